@@ -42,7 +42,8 @@ func histProbe() {
 			var parts []string
 			for _, ref := range []string{hist.Ref, hist.Ref2} {
 				on, _ := r.W.App.ValsetKeeper.GetLatestSnapshotOnChain(ctx0, ref)
-				p := fmt.Sprintf("%s live=%d:", ref, on.GetId())
+				ci, _ := r.W.App.EvmKeeper.GetChainInfo(ctx0, ref)
+				p := fmt.Sprintf("%s live=%d compass=%s/%d:", ref, on.GetId(), ci.GetSmartContractAddr(), ci.GetActiveSmartContractID())
 				for _, m := range r.W.Queue(ctx0, world.TurnstoneQueue(ref)) {
 					p += fmt.Sprintf(" [%d %s est=%d sig=%d pad=%v err=%v ev=%d]", m.GetId(), evmref.Kind(r.W, m), m.GetGasEstimate(), len(m.GetSignData()), m.GetPublicAccessData() != nil, m.GetErrorData() != nil, len(m.GetEvidence()))
 				}
